@@ -20,11 +20,12 @@ def tasks(tier):
             T.append(Task('SplineOptimizer', 'getDimension', 0, cfg, label=base, setup=optimizer_abstract_maps))
             T.append(Task('SplineOptimizer', 'setOptimizationFlags', 1, cfg, label=base, setup=optimizer_abstract_maps))
             T.append(Task('SplineOptimizer', 'setSpatialMap', 1, cfg, label=base, setup=optimizer_abstract_maps))
+            T.append(Task('SplineOptimizer', 'generateInitialGuess', 0, cfg, label=base, setup=optimizer_user_maps))
     return T
 
 
 def replay(result, workdir, seed):
-    return False, 'native replay for the optimizer family not built yet'
+    return optimizer_replay('C09', result, workdir, seed)
 
 
 def replay_file(path):
